@@ -1,5 +1,5 @@
 (* Single entry point of the executable model: [dispatch (SL [SI code; payload])]. *)
-From MD Require Import Base.Py Base.Sx Run.RunRuler Run.RunInstance.
+From MD Require Import Base.Py Base.Sx Run.RunRuler Run.RunInstance Run.RunWorld.
 
 Definition dispatch (s : sx) : sx :=
   let payload := sx_nth s 1%nat in
@@ -7,5 +7,7 @@ Definition dispatch (s : sx) : sx :=
   | 11 => run_ruler_case payload
   | 1011 => run_ruler_legacy_case payload
   | 12 => run_inst_case payload
+  | 13 => run_world_case payload
+  | 15 => run_conc_case payload
   | _ => SL [SI (-1)]
   end.
